@@ -105,7 +105,7 @@ def run(tier, seed):
     t0 = time.time()
     bins = {k: build.build(k)["vdriver"] for k in ("dbg", "rel")}
     if tier == "quick":
-        n, depth, digits, max_exp = 100000, 5, 14, 30
+        n, depth, digits, max_exp = 80000, 5, 14, 30
     else:
         n, depth, digits, max_exp = 400000, 7, 80, 200
     per = max(1, n // NCPU)
